@@ -31,9 +31,27 @@ func init() {
 type c13Bucket interface {
 	// consume returns admitted, delay (valid when rejected without error), isErr
 	consume(amt int64) (bool, time.Duration, bool)
+	// reconf changes the RateSet object the bucket is limited by in place (same periods, new average/burst)
+	reconf(rs []rateSpec)
 }
 
-type setBucket struct{ s *ratelimit.TokenBucketSet }
+type setBucket struct {
+	s   *ratelimit.TokenBucketSet
+	set *ratelimit.RateSet
+}
+
+func c13Reconf(set *ratelimit.RateSet, rs []rateSpec) {
+	for _, x := range rs {
+		if err := set.Add(x.Period, x.Average, x.Burst); err != nil {
+			panic(err)
+		}
+	}
+}
+
+// the limiter brings the buckets in accordance with the effective rates on every request; at this level the caller does
+func (b setBucket) reconf(rs []rateSpec) { c13Reconf(b.set, rs); b.s.Update(b.set) }
+
+func (b httpBucket) reconf(rs []rateSpec) { c13Reconf(b.set, rs) }
 
 func (b setBucket) consume(amt int64) (bool, time.Duration, bool) {
 	d, err := b.s.Consume(amt)
@@ -47,6 +65,7 @@ type httpBucket struct {
 	tl       *ratelimit.TokenLimiter
 	admitted *int
 	src      string
+	set      *ratelimit.RateSet
 }
 
 func (b httpBucket) consume(amt int64) (bool, time.Duration, bool) {
@@ -208,6 +227,29 @@ func c13Run(c *Ctx, level string, mk func(rs []rateSpec) c13Bucket) {
 			c.Violation(level+"/delay-insufficient", sfmt("rates %v: amount %d rejected with advertised delay %v; retried exactly %v later with no other traffic and rejected again (delay %v)", rs, amt, d, d, d2), desc)
 			return
 		}
+		// run-time re-configuration: the rate set the source is limited by is changed in place; everything below is then
+		// stated in terms of the new rates
+		if i%4 == 3 {
+			rs2 := make([]rateSpec, len(rs))
+			for k, x := range rs {
+				avg := int64(1 + r.IntN(20))
+				rs2[k] = rateSpec{x.Period, avg, 1 + r.Int64N(5*avg)}
+			}
+			A.reconf(rs2)
+			B.reconf(rs2)
+			rs = rs2
+			desc["reconfigured_in_place_to"] = rs2
+			minBurst, maxRefill = 1<<62, 0
+			for _, x := range rs {
+				if x.Burst < minBurst {
+					minBurst = x.Burst
+				}
+				if t := time.Duration((x.Burst*int64(x.Period) + x.Average - 1) / x.Average); t > maxRefill {
+					maxRefill = t
+				}
+			}
+			c.Count("reconfigurations_in_place", 1)
+		}
 		// (iii) full burst after idling burst*period/average
 		c13Drain(B, minBurst)
 		// "after" the statement's idle time includes any longer idle (as long as the source is still remembered or starts afresh)
@@ -279,17 +321,21 @@ func c13Run(c *Ctx, level string, mk func(rs []rateSpec) c13Bucket) {
 }
 
 func c13Set(c *Ctx) {
-	c13Run(c, "set", func(rs []rateSpec) c13Bucket { return setBucket{ratelimit.NewTokenBucketSet(mkRateSet(rs))} })
+	c13Run(c, "set", func(rs []rateSpec) c13Bucket {
+		set := mkRateSet(rs)
+		return setBucket{ratelimit.NewTokenBucketSet(set), set}
+	})
 }
 
 func c13HTTP(c *Ctx) {
 	c13Run(c, "http", func(rs []rateSpec) c13Bucket {
 		n := new(int)
-		tl, err := ratelimit.New(http.HandlerFunc(func(http.ResponseWriter, *http.Request) { *n++ }), hdrExtractor, mkRateSet(rs))
+		set := mkRateSet(rs)
+		tl, err := ratelimit.New(http.HandlerFunc(func(http.ResponseWriter, *http.Request) { *n++ }), hdrExtractor, set)
 		if err != nil {
 			panic(err)
 		}
-		return httpBucket{tl, n, "src"}
+		return httpBucket{tl, n, "src", set}
 	})
 }
 
